@@ -227,6 +227,14 @@ def specFileTok (t : Bytes) : Option FTok :=
 /-- raw token bytes: no delimiter, whitespace or control code -/
 def tokenBytesOk (t : Bytes) : Bool := t ≠ [] && t.all fun c => 33 ≤ c && c != 127
 
+/-- `List.mapM` for `Option`, written out for structural induction -/
+def mapOpt {α β : Type} (f : α → Option β) : List α → Option (List β)
+  | [] => some []
+  | a :: as =>
+    match f a, mapOpt f as with
+    | some b, some bs => some (b :: bs)
+    | _, _ => none
+
 def specLocators : List Bytes → List Loc × List Bytes
   | [] => ([], [])
   | t :: rest =>
@@ -243,7 +251,7 @@ def specLine (line : Bytes) : Option Stream :=
       | some name =>
         if specStreamNameOk name then
           let (blocks, ftoks) := specLocators rest
-          match ftoks.mapM specFileTok with
+          match mapOpt specFileTok ftoks with
           | some files =>
             if blocks ≠ [] ∧ files ≠ [] ∧ files.all (fun f => f.pos + f.len ≤ streamLen blocks)
             then some ⟨name, blocks, files⟩ else none
@@ -257,7 +265,7 @@ def specLine (line : Bytes) : Option Stream :=
 def parseSpec (txt : Bytes) : Option Manifest :=
   if txt = [] then some [] else
   let lines := splitOn bNL txt
-  if lines.getLast? = some [] then lines.dropLast.mapM specLine else none
+  if lines.getLast? = some [] then mapOpt specLine lines.dropLast else none
 
 /-- valid under the published grammar -/
 def ValidManifest (txt : Bytes) : Prop := (parseSpec txt).isSome = true
